@@ -277,6 +277,34 @@ func c13Docs(ctx *Ctx, r *Rng) {
 		{{path: "/{id}", decl: []string{"id"}, values: map[string]string{"id": "1"}}, {path: "/v1/../{id}/items/{item}", decl: []string{"item"}, values: map[string]string{"item": "3"}}},
 		{{path: "/a/{x}", url: true, decl: []string{"x"}, values: map[string]string{"x": "4"}}, {path: "/b/../a/{x}", url: true}, {path: "/a/b/../{x}"}},
 	}
+	// three resources on one parametrised prefix — a deeper one, a sibling continuation, a path through the deeper one
+	// again — in every order, each parameter declared by the first resource that mentions it
+	{
+		shop := []pathRes{
+			{path: "/shops/{shopId}/items/{itemId}"}, {path: "/shops/{shopId}/staff/{staffId}"}, {path: "/shops/{shopId}/items/{itemId}/photos"},
+			{path: "/shops/{shopId}"},
+		}
+		vals := map[string]string{"shopId": "1", "itemId": "2", "staffId": "3"}
+		allPerms(len(shop), func(p []int) {
+			var tree []pathRes
+			seen := map[string]bool{}
+			for _, k := range p {
+				pr := pathRes{path: shop[k].path, url: k%2 == 0, values: map[string]string{}}
+				for _, sg := range strings.Split(pr.path, "/") {
+					if strings.HasPrefix(sg, "{") {
+						nm := sg[1 : len(sg)-1]
+						if !seen[nm] {
+							seen[nm] = true
+							pr.decl = append(pr.decl, nm)
+							pr.values[nm] = vals[nm]
+						}
+					}
+				}
+				tree = append(tree, pr)
+			}
+			dotTrees = append(dotTrees, tree)
+		})
+	}
 	for i := 0; i < n+len(dotTrees) && len(ctx.Violations) < 10; i++ {
 		var res []pathRes
 		var doc string
